@@ -11,7 +11,16 @@ Prio = Enum("Priority")
 
 
 def prepare(prog):
-    from pyvc.extract import extract_block
+    from pyvc.extract import extract_block, extract_loop_body
+    # one iteration of `for row_dict in reader:` of the generator batch_by_pipeline: the rebound locals are returned with the
+    # verdict, `yield e` becomes `emitted.append(e)` (see pyvc/extract.py)
+    try:
+        extract_loop_body(prog, f"{MC}:CSVWorkloadReader.batch_by_pipeline", "group_row",
+                          lambda n: ast.unparse(n.target) == "row_dict" and ast.unparse(n.iter) == "reader",
+                          ["self", "row_dict", "current_batch", "current_pipeline_id", "emitted"],
+                          outs=["current_batch", "current_pipeline_id"], yields_to="emitted")
+    except KeyError:
+        pass        # reported as unreachable on its own; the format-rule block below is independent
     is_start = lambda s: isinstance(s, ast.If) and ast.unparse(s.test) == "not batch"
     belongs = lambda s: not (isinstance(s, ast.Assign) and ast.unparse(s.targets[0]) == "pipeline")
     return extract_block(prog, f"{MC}:CSVWorkloadReader.create_pipeline_from_batch", "batch_format", is_start, belongs, ["batch"], "priority")
@@ -42,3 +51,49 @@ def declare(S: Spec):
                                       "all(LaterRowOK(batch[j]) for j in range(1, k))",
                                       "all(batch[j].pipeline_id == batch[0].pipeline_id for j in range(0, k))"])},
          note="rule-checking prefix of create_pipeline_from_batch; a refusal is a ValueError or (unknown priority name) a KeyError")
+
+
+def declare2(S: Spec):
+    """grouping of rows into pipelines (C14: same count and order; either of arrival / priority on a later row is refused):
+    the reader closes a pipeline exactly when the pipeline id changes, so a later row of the same id - whatever it carries -
+    reaches the format rules of batch_format together with the first row"""
+    Row = Ref("CSVOperatorRow")
+    S.cls("CSVWorkloadReader", {})
+    S.fn(f"{MC}:CSVWorkloadReader._parse_row", params={"row_dict": Dict(STR, STR)}, returns=Row,
+         requires=[], ensures=["result is not None"], raises={"ValueError": [], "KeyError": []}, modifies=[], allocates=True,
+         note="assumed: parsing one csv.DictReader row yields a row tuple or raises (string to float conversion is not modelled)")
+    S.fns[f"{MC}:CSVWorkloadReader._parse_row"].trusted = True
+    S.fn(f"{MC}:CSVWorkloadReader.create_pipeline_from_batch", params={"batch": List(Row)}, returns=Ref("Pipeline"),
+         requires=["batch is not None"], ensures=["result is not None", "BatchFormatOK(batch)"],
+         raises={"ValueError": [], "KeyError": []}, modifies=[], allocates=True,
+         note="assumed here: builds a new pipeline from the batch or refuses it; BatchFormatOK on normal return is the verified "
+              "postcondition of its rule-checking prefix batch_format (the rest of the function does not touch the rows)")
+    S.fns[f"{MC}:CSVWorkloadReader.create_pipeline_from_batch"].trusted = True
+    S.pred("RunOK", [("b", List(Row)), ("pid", Opt(STR))],
+           "b is not None and pid is not None and len(b) >= 1 and all(r is not None and r.pipeline_id == pid for r in b)")
+    NEW = "result[1][len(result[1]) - 1]"
+    S.fn(f"{MC}:group_row", owners=["C14"],
+         params={"self": Ref("CSVWorkloadReader"), "row_dict": Dict(STR, STR), "current_batch": List(Row),
+                 "current_pipeline_id": Opt(STR), "emitted": List(Ref("PipelineArrival"))},
+         returns=Tuple(STR, List(Row), Opt(STR)),
+         locals={"row": Row, "arrival_seconds": Opt(REAL), "pipeline": Ref("Pipeline")},
+         requires=["self is not None and row_dict is not None and emitted is not None and current_batch is not None",
+                   "current_batch is not emitted",
+                   "implies(current_pipeline_id is not None, RunOK(current_batch, current_pipeline_id))"],
+         ensures=[("always-moves-on", "result[0] == 'next'"),
+                  ("the-open-batch-is-a-run-of-one-pipeline-id", "RunOK(result[1], result[2])"),
+                  ("a-row-of-the-same-id-joins-the-open-batch-whatever-else-it-carries",
+                   f"implies(old(current_pipeline_id) is not None and {NEW}.pipeline_id == old(current_pipeline_id),"
+                   " result[1] is current_batch and len(result[1]) == old(len(current_batch)) + 1"
+                   " and all(result[1][j] is old(current_batch[j]) for j in range(0, old(len(current_batch))))"
+                   " and len(emitted) == old(len(emitted)))"),
+                  ("a-row-of-another-id-closes-the-open-batch-as-one-pipeline",
+                   f"implies(old(current_pipeline_id) is not None and {NEW}.pipeline_id != old(current_pipeline_id),"
+                   " len(result[1]) == 1 and len(emitted) == old(len(emitted)) + 1"
+                   " and emitted[len(emitted) - 1] is not None"
+                   " and emitted[len(emitted) - 1].arrival_seconds == old(current_batch[0].arrival_seconds))"),
+                  ("the-first-row-opens-a-batch", "implies(old(current_pipeline_id) is None, len(result[1]) == 1 and len(emitted) == old(len(emitted)))"),
+                  ("pipelines-already-handed-out-stay", "all(emitted[j] is old(emitted[j]) for j in range(0, old(len(emitted))))")],
+         raises={"ValueError": [], "KeyError": []},
+         modifies=["contents(current_batch)", "contents(emitted)"], allocates=True,
+         note="extracted: one iteration of `for row_dict in reader` of batch_by_pipeline; yield -> emitted.append")
